@@ -29,6 +29,8 @@ def run_driver(drv, repo, work, o=None, timeout_s=600):
     env['RUST_BACKTRACE'] = '0'
     if o is not None:
         env['VERIF_OBLIGATION'] = o.get('id', '')
+    for k_, v_ in (drv.get('env') or {}).items():
+        env[k_] = v_
     cmd = ['timeout', str(timeout_s), 'cargo', 'test', '--offline', mod + '::' + drv.get('test', ''), '--', '--nocapture', '--test-threads', '1']
     p = subprocess.run(cmd, cwd=dst, env=env, stdout=subprocess.PIPE, stderr=subprocess.STDOUT, text=True)
     out = p.stdout
